@@ -26,7 +26,7 @@ From Coq Require Import List ZArith NArith Bool String Lia.
 From WF Require Import Base.Bytes Base.Sexp Sem.RangeSet Lang.Types Lang.Ast Sem.TypeCodec Sem.JsonText
      Parse.Lex Sem.Compile Parse.Parser Spec.Typing Sem.AstJson Spec.C07
      Proofs.AstJsonProofs Proofs.LayoutProofs Proofs.JsonPrintProofs Proofs.AstJsonInj Proofs.IpTextInj
-     Proofs.LitsTyped Proofs.ParserClosed Proofs.C07Proofs.
+     Proofs.LitsTyped Proofs.ParserClosed Proofs.C07Proofs Proofs.IpsProofs.
 Import ListNotations.
 Open Scope N_scope.
 
@@ -77,6 +77,22 @@ Theorem C07_parsed_same_text_iff_same_structure : forall sch st t1 t2 e1 e2 r1 r
   ips_ok e1 -> ips_ok e2 ->
   (filter_json_text sch e1 = filter_json_text sch e2 <-> struct_eq e1 e2).
 Proof. exact parsed_text_determines_structure. Qed.
+
+(* ... and the premise about addresses holds for whatever the parser accepts
+   (Proofs/IpsProofs.v: every address literal is a 32 / 128 bit value), so for
+   parsed filters the statement is unconditional: *)
+Theorem C07_parsed_addresses_in_range : forall sch st text e r,
+  parse_filter sch st text = LOk e r -> ips_ok e.
+Proof. exact parse_filter_ips_ok. Qed.
+
+Theorem C07_parsed_text_iff_structure : forall sch st t1 t2 e1 e2 r1 r2,
+  names_distinct sch -> parse_filter sch st t1 = LOk e1 r1 -> parse_filter sch st t2 = LOk e2 r2 ->
+  (filter_json_text sch e1 = filter_json_text sch e2 <-> struct_eq e1 e2).
+Proof.
+  intros sch st t1 t2 e1 e2 r1 r2 Hn H1 H2.
+  exact (parsed_text_determines_structure sch st t1 t2 e1 e2 r1 r2 Hn H1 H2
+           (parse_filter_ips_ok _ _ _ _ _ H1) (parse_filter_ips_ok _ _ _ _ _ H2)).
+Qed.
 
 (* the typing rules decide the kind of every literal *)
 Theorem C07_well_typed_literals_are_typed : forall sch e,
